@@ -50,10 +50,10 @@ pub open spec fn id_cmp<T: Ord>(a: Seq<(BigRational, T)>, b: Seq<(BigRational, T
 }
 
 impl<T: Ord> vstd::std_specs::cmp::PartialEqSpecImpl for Identifier<T> {
-    open spec fn obeys_eq_spec() -> bool { false }
-    uninterp spec fn eq_spec(&self, other: &Self) -> bool;
+    open spec fn obeys_eq_spec() -> bool { node_ok::<T>() }
+    open spec fn eq_spec(&self, other: &Self) -> bool { id_cmp(self@, other@) == Ordering::Equal }
 }
-// derive(PartialEq, Eq) on Identifier: not under contract (only `cmp` is used by the collections)
+// derive(PartialEq, Eq) on Identifier (Vec equality): assumed to agree with `cmp == Equal` for lawful node types
 impl<T: Ord> PartialEq for Identifier<T> { #[verifier::external_body] fn eq(&self, other: &Self) -> bool { self.0 == other.0 } }
 impl<T: Ord> Eq for Identifier<T> {}
 
@@ -243,6 +243,40 @@ pub proof fn lemma_lt_eqv<V: Ord>(x: V, y: V, z: V)
     } else if eqv(x, z) {
         assert(eqv(z, y));
         assert(eqv(x, y));
+    }
+}
+
+/// Registration: the proved order satisfies vstd's (opaque) law bundle, so every BTreeMap / BTreeSet keyed by
+/// Identifier (List, GList) gets its key-order hypothesis from this proof rather than from an assumption.
+pub proof fn c14_identifier_obeys_cmp<T: Ord>()
+    requires node_ok::<T>(), forall|x: (BigRational, T)| #[trigger] x.cmp_spec(&x) == Ordering::Equal,
+    ensures vstd::laws_cmp::obeys_cmp::<Identifier<T>>(),
+{
+    reveal(vstd::laws_cmp::obeys_cmp);
+    reveal(vstd::laws_cmp::obeys_cmp_partial_ord);
+    reveal(vstd::laws_cmp::obeys_cmp_ord);
+    reveal(vstd::laws_cmp::obeys_partial_cmp_spec_properties);
+    reveal(vstd::laws_eq::obeys_eq);
+    reveal(vstd::laws_eq::obeys_eq_spec_properties);
+    assert forall|x: Identifier<T>, y: Identifier<T>| #[trigger] x.eq_spec(&y) <==> y.eq_spec(&x) by { c14_antisymmetric(x@, y@); }
+    assert forall|x: Identifier<T>, y: Identifier<T>, z: Identifier<T>| x.eq_spec(&y) && #[trigger] y.eq_spec(&z) implies #[trigger] x.eq_spec(&z) by { c14_equal_trans(x@, y@, z@); }
+    assert forall|x: Identifier<T>, y: Identifier<T>| (#[trigger] x.partial_cmp_spec(&y) == Some(Ordering::Less)) <==> (y.partial_cmp_spec(&x) == Some(Ordering::Greater)) by { c14_antisymmetric(x@, y@); }
+    assert forall|x: Identifier<T>, y: Identifier<T>, z: Identifier<T>| x.partial_cmp_spec(&y) == Some(Ordering::Less) && #[trigger] y.partial_cmp_spec(&z) == Some(Ordering::Less) implies #[trigger] x.partial_cmp_spec(&z) == Some(Ordering::Less) by { c14_transitive(x@, y@, z@); }
+    assert forall|x: Identifier<T>, y: Identifier<T>, z: Identifier<T>| x.partial_cmp_spec(&y) == Some(Ordering::Greater) && #[trigger] y.partial_cmp_spec(&z) == Some(Ordering::Greater) implies #[trigger] x.partial_cmp_spec(&z) == Some(Ordering::Greater) by {
+        c14_antisymmetric(x@, y@); c14_antisymmetric(y@, z@); c14_transitive(z@, y@, x@); c14_antisymmetric(x@, z@);
+    }
+}
+
+pub proof fn c14_equal_trans<T: Ord>(a: Seq<(BigRational, T)>, b: Seq<(BigRational, T)>, c: Seq<(BigRational, T)>)
+    requires node_ok::<T>(), id_cmp(a, b) == Ordering::Equal, id_cmp(b, c) == Ordering::Equal,
+    ensures id_cmp(a, c) == Ordering::Equal,
+    decreases a.len(),
+{
+    lemma_ord_ok::<(BigRational, T)>();
+    if a.len() > 0 && b.len() > 0 && c.len() > 0 {
+        assert(eqv(a[0], b[0]) && eqv(b[0], c[0]));
+        assert(eqv(a[0], c[0]));
+        c14_equal_trans(a.drop_first(), b.drop_first(), c.drop_first());
     }
 }
 
